@@ -236,27 +236,63 @@ func (cg *CallGraph) guardEdgesIn(fn *ssa.Function, bind Bind, g GuardSpec, dept
 		if len(nb) == 0 && !g.ValueFree {
 			continue
 		}
-		hEdges, _ := cg.guardEdgesIn(h, nb, g, depth+1)
-		if len(hEdges) == 0 {
-			continue
-		}
-		all := true
-		for _, ret := range Returns(h) {
-			rv := retVals(ret)
-			if len(rv) == 0 {
-				continue
-			}
-			last := rv[len(rv)-1]
-			if nonNilAt(last, ret.Block(), 0) {
-				continue // a failing return
-			}
-			if !MustPass(h, hEdges, ret.Block()) {
-				all = false
-			}
-		}
-		if all {
+		if cg.successRequires(h, nb, g, depth+1) {
 			edges = append(edges, NilEdges(fn, errValues(fn, call), true)...)
 		}
 	}
 	return edges, isVal
+}
+
+// successRequires: the error-returning function fn returns a nil error only when the guard passed: every return whose
+// error may be nil lies behind a passing edge of the guard (its own, or the success of a helper into which the guard
+// was moved), or returns the very error of such a helper (`return helper(x)`).
+func (cg *CallGraph) successRequires(fn *ssa.Function, bind Bind, g GuardSpec, depth int) bool {
+	if depth > 4 {
+		return false
+	}
+	edges, isVal := cg.guardEdgesIn(fn, bind, g, depth)
+	n := 0
+	for _, ret := range Returns(fn) {
+		rv := retVals(ret)
+		if len(rv) == 0 {
+			continue
+		}
+		last := rv[len(rv)-1]
+		if !isErrorType(last.Type()) {
+			return false
+		}
+		if nonNilAt(last, ret.Block(), 0) {
+			continue // a failing return
+		}
+		n++
+		if len(edges) > 0 && MustPass(fn, edges, ret.Block()) {
+			continue
+		}
+		// the error returned is the error of a helper that itself succeeds only when the guard passed
+		var call *ssa.Call
+		switch x := last.(type) {
+		case *ssa.Call:
+			call = x
+		case *ssa.Extract:
+			call, _ = x.Tuple.(*ssa.Call)
+		}
+		ok := false
+		if call != nil && !call.Common().IsInvoke() {
+			if h := call.Common().StaticCallee(); h != nil && h.Blocks != nil && cg.isModuleFunc(h) && h != fn {
+				nb := Bind{}
+				for i, p := range h.Params {
+					if i < len(call.Call.Args) && isVal(call.Call.Args[i]) {
+						nb[p] = true
+					}
+				}
+				if len(nb) > 0 || g.ValueFree {
+					ok = cg.successRequires(h, nb, g, depth+1)
+				}
+			}
+		}
+		if !ok {
+			return false
+		}
+	}
+	return n > 0
 }
